@@ -485,3 +485,7 @@ mod tests {
             .quickcheck(prop as fn(Vec<u8>) -> TestResult);
     }
 }
+
+#[cfg(kani)]
+#[path = "/verif/units/kani/overflow.rs"]
+mod verif_kani;
